@@ -35,8 +35,13 @@ AXIOMS: list = []      # (name, formula, defines-decl-name)
 LEMMAS: dict = {}      # name -> dict(statement=formula, proof=[(label, formula)], uses=[axiom/lemma names])
 
 
-def axiom(name, formula, decl):
+OPAQUE_DEFS = set()    # names of definitional axioms that are hidden unless an obligation asks to `unfold` their symbol
+
+
+def axiom(name, formula, decl, opaque=False):
     AXIOMS.append((name, formula, decl))
+    if opaque:
+        OPAQUE_DEFS.add(name)
 
 
 def spec(name):
@@ -90,8 +95,8 @@ axiom('entsum.step', z3.ForAll([_A, _d, _m], z3.Implies(
     _m > 0, ENT(_A, _d, _m) == ENT(_A, _d, _m - 1) + G(z3.ToReal(_A[_m - 1]) / _d)), patterns=[ENT(_A, _d, _m)]), 'entsum')
 
 
-def lemma(name, statement, proof, uses=()):
-    LEMMAS[name] = dict(statement=statement, proof=proof, uses=list(uses))
+def lemma(name, statement, proof, uses=(), unfold=()):
+    LEMMAS[name] = dict(statement=statement, proof=proof, uses=list(uses), unfold=list(unfold))
 
 
 def _induction(P, n):
@@ -685,3 +690,76 @@ def sp_npdivide(I, st, args, kwargs):
 @spec('inf')
 def sp_inf(I, st, args, kwargs):
     return VReal(z3.Real('np.inf'))
+
+
+# ----------------------------------------------------------------------------- 3MR (C17)
+def _mr3_syms(I):
+    """first-order symbols for the 3MR aggregates over opaque-string names (built lazily: need the tuple sort)."""
+    from . import sym as _sym
+    from .sym import sort_of
+    if not hasattr(I.speclib, '_MR3'):
+        P = _sym.PSTR
+        T2 = sort_of(('tuple', 'pstr', 'pstr'))
+        DOM = z3.ArraySort(T2, B_)
+        VAL = z3.ArraySort(T2, R_)
+        RA = z3.ArraySort(I_, P)
+        VALS3 = z3.Function('vals3', DOM, VAL, RA, P, AIR)
+        AGG3 = z3.Function('agg3', P, DOM, VAL, RA, I_, P, R_)
+        dom, val, R, R2 = z3.Const('dom3', DOM), z3.Const('val3', VAL), z3.Const('R3', RA), z3.Const('R3b', RA)
+        f, sgy = z3.Const('f3', P), z3.Const('s3', P)
+        mk = T2.constructor(0)
+        axiom('vals3.def', z3.ForAll([dom, val, R, f, _i], VALS3(dom, val, R, f)[_i] == z3.If(
+            dom[mk(R[_i], f)], val[mk(R[_i], f)], z3.RealVal(0)), patterns=[VALS3(dom, val, R, f)[_i]]), 'vals3', opaque=True)
+        A = I.stubs.agg_fn
+        V = VALS3(dom, val, R, f)
+        axiom('agg3.def', z3.ForAll([sgy, dom, val, R, _t, f], AGG3(sgy, dom, val, R, _t, f) == z3.If(
+            sgy == _sym.pstr_lit('median'), A('median')(_t, V),
+            z3.If(sgy == _sym.pstr_lit('mean'), A('mean')(_t, V), A('sum')(_t, V))),
+            patterns=[AGG3(sgy, dom, val, R, _t, f)]), 'agg3', opaque=True)
+        lemma('agg3_prefix',
+              # the aggregate over the first t ranked features does not depend on later cells of the ranked list
+              z3.ForAll([sgy, dom, val, R, R2, _t, f], z3.Implies(
+                  z3.ForAll([_i], z3.Implies(z3.And(_i >= 0, _i < _t), R[_i] == R2[_i])),
+                  AGG3(sgy, dom, val, R, _t, f) == AGG3(sgy, dom, val, R2, _t, f)),
+                  patterns=[z3.MultiPattern(AGG3(sgy, dom, val, R, _t, f), AGG3(sgy, dom, val, R2, _t, f))]),
+              [('direct', z3.ForAll([sgy, dom, val, R, R2, _t, f], z3.Implies(
+                  z3.ForAll([_i], z3.Implies(z3.And(_i >= 0, _i < _t), R[_i] == R2[_i])),
+                  AGG3(sgy, dom, val, R, _t, f) == AGG3(sgy, dom, val, R2, _t, f))))], unfold=['agg3', 'vals3'])
+        I.speclib._MR3 = (VALS3, AGG3)
+    return I.speclib._MR3
+
+
+@spec('vals3')
+def sp_vals3(I, st, args, kwargs):
+    """vals3(d, ranked, t, f): the list [d.get((ranked[i], f), 0) for i < t] (missing pairs count as 0)."""
+    d, ranked, t, f = args
+    VALS3, _ = _mr3_syms(I)
+    return VSeq('real', to_term(t, 'int'), VALS3(d.dom, d.val, ranked.arr, f.t), flavor='list')
+
+
+@spec('agg3')
+def sp_agg3(I, st, args, kwargs):
+    """agg3(strategy, d, ranked, t, f): median / mean / sum (by strategy) of vals3(d, ranked, t, f); the aggregates
+    themselves are uninterpreted and shared by code and spec."""
+    strategy, d, ranked, t, f = args
+    _, AGG3 = _mr3_syms(I)
+    return VReal(AGG3(strategy.t, d.dom, d.val, ranked.arr, to_term(t, 'int'), f.t))
+
+
+@spec('some')
+def sp_some(I, st, args, kwargs):
+    from .sym import VOpt
+    v = args[0]
+    return v.val if isinstance(v, VOpt) else v
+
+
+@spec('is_neg_inf')
+def sp_is_neg_inf(I, st, args, kwargs):
+    v = args[0]
+    return VBool(v.inf == -1 if getattr(v, 'inf', None) is not None else False)
+
+
+@spec('finite')
+def sp_finite(I, st, args, kwargs):
+    v = args[0]
+    return VBool(v.inf == 0 if getattr(v, 'inf', None) is not None else True)
